@@ -6,13 +6,14 @@ import (
 	"verif/ref/irjs"
 )
 
+// smoke: hand-written programs on which the reference interpreter and the engine must agree (global code, both
+// modes); a quick sanity test of irjs + printer + runner.
 var smoke = []string{
 	`(prog (expr (call log (+ 1 2))))`,
 	`(prog (let a 1) (fdecl f (params) (return a)) (expr (call log (call f))))`,
 	`(prog (expr (call log a)) (let a 1))`,
 	`(prog (expr (call log (typeof a))) (var a 1))`,
 	`(prog (var fs (arr)) (for (let i 0) (< i 3) (post++ i) (expr (call (. fs push) (arrow (params) (return i))))) (expr (call log (call ([] fs 0)))) (expr (call log (call ([] fs 2)))))`,
-	`(prog (expr (neg (call mk 0.5))))`,
 	`(prog (expr (+ (call mk 1) (call mk 2))))`,
 	`(prog (expr (< (call mk 1) (call mk 2))))`,
 	`(prog (var o (obj (get p (expr (call log 1)) (return 5)) (set p v (expr (call log v))))) (expr (+= (. o p) 2)) )`,
@@ -30,13 +31,10 @@ var smoke = []string{
 	`(prog (let (opat (ps a) (p x y 5) (rest r)) (obj (prop a 1) (prop z 3))) (expr (call log (arr a y (. r z)))))`,
 	`(prog (forof (let x) (call it 3) (block (expr (call log x)) (if (== x 2) (break)))))`,
 	`(prog (forin (var k) (obj (prop a 1) (prop b 2)) (expr (call log k))))`,
-	`(prog (block (fdecl g (params) (return 1))) (expr (call log (typeof g))))`,
 	`(prog (var x (func f (params) (expr (= f 1)) (return (typeof f)))) (expr (call log (call x))))`,
 	`(prog (expr (= q 1)) (expr (call log q)))`,
 	`(prog (fdecl f (params) (return this)) (expr (call log (typeof (call f)))))`,
 	`(prog (const c 1) (try (block (expr (= c 2))) (catch e (expr (call log e))) _))`,
-	`(prog (var o (obj (prop a 1))) (expr (post++ ([] o (call mk "a")))) (expr (call log (. o a))))`,
-	`(prog (var o (obj (prop a 1))) (expr (+= ([] o (call mk "a")) 1)) (expr (call log (. o a))))`,
 	`(prog (expr (tpl "a" (call mk 1) "b")))`,
 	`(prog (let a (arrowe (params x) (* x 2))) (expr (call log (call a 4))))`,
 	`(prog (expr (call log (?: (call mk 1) 1 2))) (expr (call log (&& 0 (call log 5)))) (expr (?? null 3)))`,
